@@ -215,6 +215,9 @@ func allocKey(dec string) string {
 
 var seenIn = map[string]struct{}{}
 
+// oracleOnly: the cases run while it is set are not emitted for the model
+var oracleOnly bool
+
 // run executes one case, emits it for the model (if the decoder is modelled) and judges it.
 func run(dec string, in []byte, class string) resp {
 	k := dec + "|" + string(in)
@@ -250,7 +253,11 @@ func run(dec string, in []byte, class string) resp {
 		cls = 1
 	}
 	nontrivial := len(in) > 0 && (r.Class == "ok" || r.Code != 1 || cls != 0)
-	if c, ok := coqDec[dec]; ok && r.Class != "hang" {
+	if oracleOnly {
+		// inputs of several hundred KB: the model's list recursion overflows coqc's stack on them;
+		// they are judged by the oracle (no panic, allocation in proportion) only
+		out.Count(dec+"/"+class+"-oracle-only", k, nontrivial)
+	} else if c, ok := coqDec[dec]; ok && r.Class != "hang" {
 		o := "Panic"
 		switch r.Class {
 		case "ok":
